@@ -116,11 +116,14 @@ Definition big_case (kind n : N) : func :=
   | _ => Func None 0 0 0 [] [] [] [] [] [repN 97 n]
   end.
 
-Inductive bigv := BSame | BDiff | BErr (e : err) | BCrash.
+Definition errw_eqb (a b : err_w) : bool :=
+  match a, b with WLimit x, WLimit y => x =? y | WNestedIdx, WNestedIdx => true | _, _ => false end.
+Inductive bigv := BSame | BDiff | BErr (e : err) | BCrash | BWErr (e : err_w).
 Definition bigv_eqb (a b : bigv) : bool :=
   match a, b with
   | BSame, BSame | BDiff, BDiff | BCrash, BCrash => true
   | BErr x, BErr y => err_eqb x y
+  | BWErr x, BWErr y => errw_eqb x y
   | _, _ => false
   end.
 Definition checksum (bs : list N) : N * N :=
@@ -134,28 +137,33 @@ Inductive query :=
 | QB (dbg : bool) (kind n : N).
 Inductive obs :=
 | OBytes (bs : list N)
+| OWErr (e : err_w)
 | ORes (r : result)
 | OBig (len s1 s2 : N) (v : bigv).
 
 Definition run (q : query) : obs :=
   match q with
-  | QW f => OBytes (write f)
+  | QW f => match write f with WOk bs => OBytes bs | WErr e => OWErr e end
   | QN f => ORes (alias_result (ROk (normalize f)))
   | QR dbg bs => ORes (alias_result (read dbg bs))
   | QB dbg kind n =>
       let f := big_case kind n in
-      let bs := write f in
-      let c := checksum bs in
-      OBig (lenN bs) (fst c) (snd c)
-           (match read dbg bs with
-            | ROk g => if func_eqb g (normalize f) then BSame else BDiff
-            | RErr e => BErr e
-            | RCrash => BCrash
-            end)
+      match write f with
+      | WErr e => OBig 0 0 0 (BWErr e)
+      | WOk bs =>
+          let c := checksum bs in
+          OBig (lenN bs) (fst c) (snd c)
+               (match read dbg bs with
+                | ROk g => if func_eqb g (normalize f) then BSame else BDiff
+                | RErr e => BErr e
+                | RCrash => BCrash
+                end)
+      end
   end.
 Definition obs_eqb (a b : obs) : bool :=
   match a, b with
   | OBytes x, OBytes y => list_eqbN x y
+  | OWErr x, OWErr y => errw_eqb x y
   | ORes x, ORes y => result_eqb x y
   | OBig l1 a1 b1 v1, OBig l2 a2 b2 v2 => (l1 =? l2) && (a1 =? a2) && (b1 =? b2) && bigv_eqb v1 v2
   | _, _ => false
